@@ -21,13 +21,13 @@ def maximal(hists):
     keys = set()
     out = []
     for h in hists:
-        keys.add(json.dumps([h["kind"], h["hist"]]))
+        keys.add(json.dumps([h["kind"], h.get("auth"), h["hist"]]))
     pref = set()
     for h in hists:
         for k in range(1, len(h["hist"])):
-            pref.add(json.dumps([h["kind"], h["hist"][:k]]))
+            pref.add(json.dumps([h["kind"], h.get("auth"), h["hist"][:k]]))
     for h in hists:
-        k = json.dumps([h["kind"], h["hist"]])
+        k = json.dumps([h["kind"], h.get("auth"), h["hist"]])
         if k not in pref:
             out.append(h)
     return out
@@ -54,6 +54,9 @@ def _replay(idx, h):
     CTX.now = 1700000000.0
     CTX.skew = {}
     ch, key = cred("rsa")
+    cch, ckey = cred("c_rsa")
+    auth = bool(h.get("auth"))
+    nconnect = 0
     keys = {1: bytearray(b"\x01" * 32), 2: bytearray(b"\x02" * 32), 3: bytearray(b"\x03" * 32)}
     srv = {"keys": [keys[1]], "gen": 1, "cache": SessionCache(maxEntries=50, maxAge=LIFETIME)}
     session = None
@@ -77,6 +80,11 @@ def _replay(idx, h):
                 name = session.getCipherName()
                 allc = ["aes128", "aes256"] if vers < (3, 4) else ["aes128gcm", "aes256gcm"]
                 cs["cipherNames"] = [c for c in allc if c != name]
+                if vers == (3, 4):
+                    # laxer client for TLS 1.3 as well: it still offers the ticket, under the suite it has left
+                    from tlslite.constants import CipherSuite as _CS
+                    session.cipherSuite = (_CS.TLS_AES_128_GCM_SHA256 if session.cipherSuite == _CS.TLS_AES_256_GCM_SHA384
+                                           else _CS.TLS_AES_256_GCM_SHA384)
                 # a client that offers the stored session although its suite is no longer offered
                 # (tlslite's own client API refuses this with ValueError: emulate a laxer client by
                 # letting it believe the session belongs to a suite it still offers)
@@ -104,6 +112,12 @@ def _replay(idx, h):
             if kind == "id":
                 skw["sessionCache"] = srv["cache"]
             ckw = dict(settings=settings(**cs), serverName=sni)
+            nconnect += 1
+            if auth:
+                # the server always asks; the client has its certificate in the first connection only
+                skw["reqCert"] = True
+                if nconnect == 1:
+                    ckw["certChain"], ckw["privateKey"] = cch, ckey
             if session is not None:
                 ckw["session"] = session
             rec = Puppet(p.s, p.ssock, plan=None)
@@ -123,7 +137,19 @@ def _replay(idx, h):
                        "etm": bool(p.c._recordLayer._writeState.encryptThenMAC) if vers < (3, 4) else False,
                        "sni": str(p.s.session.serverName), "s_suite": p.s.session.cipherSuite}
                 obs["attrs"] = cur
+                scc = p.s.session.clientCertChain
+                obs["cid"] = "none" if (scc is None or not scc.getNumCerts()) else \
+                    ("A" if bytes(scc.x509List[0].bytes) == bytes(cch.x509List[0].bytes) else "other")
             bad = []
+            want_cid = ev.get("cid", "-")
+            if ok and want_cid != "-":
+                # a connection that was resumed against the prediction is reported by the clauses below
+                exp = want_cid
+                if pred in ("full", "full-or-abort") and not resumed_wire:
+                    exp = "A" if (auth and nconnect == 1) else "none"
+                if (pred != "resume" or resumed_wire) and obs["cid"] != exp and not (pred != "resume" and resumed_wire):
+                    bad.append(("identity-from-proof-or-resumption",
+                                "server attributes client identity %r, expected %r" % (obs["cid"], exp)))
             if pred == "full":
                 if not ok:
                     bad.append(("falls-back-cleanly", "full handshake expected but connection failed: %s / %s" % (obs["c"], obs["s"])))
@@ -194,6 +220,15 @@ def _replay(idx, h):
         elif e == "flush":
             srv["cache"] = SessionCache(maxEntries=50, maxAge=LIFETIME)
             steps.append({"e": e})
+        elif e == "evict":
+            # as many other sessions as the cache holds are stored through the cache's own interface
+            from tlslite.session import Session
+            for j in range(len(srv["cache"].entriesList) + 1):
+                d = Session()
+                d.sessionID = bytearray(b"filler-%06d-%04d" % (ei, j)).ljust(32, b"\x00")
+                d.resumable = True
+                srv["cache"][d.sessionID] = d
+            steps.append({"e": e})
         elif e == "tamper":
             if kind == "id":
                 session.sessionID = bytearray(session.sessionID)
@@ -225,6 +260,7 @@ def run(tier):
     cfg = tlc.write_cfg(os.path.join(rep.outdir, "R.cfg"),
                         "CONSTANTS\n  MaxEv = %d\n  Kinds = {\"id\", \"tkt12\", \"psk13\"}\nINIT Init\nNEXT Next\n"
                         "PROPERTY ResumeOnlyIfEligible\nPROPERTY IneligibleFallsBack\nPROPERTY ResumedInherits\n"
+                        "PROPERTY IdentityFromProofOrResumption\n"
                         "INVARIANT Emit\nCHECK_DEADLOCK FALSE\n" % maxev)
     r = tlc.run("Resumption.tla", cfg, os.path.join(rep.outdir, "mc"), workers=1, timeout=1500, heap="4g")
     rep.require_tlc_ok(r, "Resumption.tla: all histories <= %d events, rule properties" % maxev)
